@@ -23,7 +23,7 @@ def main(tier, seed):
     run.notes["host_calls_observed"] = host
     run.notes["runs_rejected_or_failed"] = stats.get("err", 0)
     if sum(v for k, v in host.items() if k.startswith("call")) < 20 or sum(v for k, v in host.items() if k.startswith("t_")) < 50:
-        raise ToolError("too few host calls in the corpus")
+        run.thin_corpus("too few host calls in the corpus")
     # reserved names
     names = os.path.join(d, "names.ndjson")
     cv(["host-register-names", "--out", names])
